@@ -269,6 +269,12 @@ Definition replace_effs (v : variant) (s : suf) (b : Z) (nf : list rec) (pcopy :
 
 Definition segs_of (d : disk) : list seg := map m_seg (d_segs d).
 
+(* the next offset of the log once Truncate is through: of the segment before the removed one, or of
+   the rewritten segment *)
+Definition trunc_next (segs : list seg) (i : nat) (s : seg) (o : Z) : Z :=
+  if (s_base s =? o) && negb (Nat.eqb i 0) then s_next (nth (i - 1) segs s)
+  else s_next (mkSeg (s_base s) (keep_below (s_recs s) o)).
+
 Definition trunc_effs (v : variant) (d : disk) (o : Z) : list eff :=
   match find_segment (segs_of d) o with
   | None => []
@@ -278,7 +284,8 @@ Definition trunc_effs (v : variant) (d : disk) (o : Z) : list eff :=
       ++ (if (s_base s =? o) && negb (Nat.eqb i 0) then del_effs (TMain (s_base s))
           else replace_effs v STrunc (s_base s) (keep_below (s_recs s) o) PTruncCopy)
       ++ [FPoint PTruncReplaced]
-      ++ (if cache_latest_off (d_ep d) <? o then [] else [FEpochs (cache_clear_latest (d_ep d) o)])
+      ++ (let e := Z.min o (trunc_next (segs_of d) i s o) in
+          if cache_latest_off (d_ep d) <? e then [] else [FEpochs (cache_clear_latest (d_ep d) e)])
   end.
 
 (* deleteCleaner: the age limit deletes oldest first, the message and byte limits newest first *)
